@@ -518,12 +518,15 @@ Definition empty_length_script : script :=
               [Elem n_resourcetype LNone []; Elem n_getcontentlength (LInt false) []];
             Elem (DAV, "status") (LCode 200) []]]]))).
 
-Example models_differ_on_empty_length :
+(** Before DavClient.parse_size was corrected (build-c05, fa63379) the two models differed
+    here: C05's model refused the empty length that encoding/xml reads as 0.  Now both
+    return the file information. *)
+Example models_agree_on_empty_length :
   D.out_of D.OInfo
     (do ms <- D.do_multistatus ext_id empty_length_answer;
-     match ms with [d] => D.file_info_from_response ext_id d | _ => Err 0%N end) = D.OErr 0
+     match ms with [d] => D.file_info_from_response ext_id d | _ => Err 0%N end) <> D.OErr 0
   /\ run MStat "/dir/a.txt" empty_length_script = COk (VPaths ["/dir/a.txt"]).
-Proof. vm_compute. auto. Qed.
+Proof. vm_compute. split; [discriminate|reflexivity]. Qed.
 
 (** * The C10 model (Objects.v): the readers of calendar / address object lists
 
